@@ -243,7 +243,9 @@ def prepare():
     from pharmpy.workflows.model_database.baseclass import PendingTransactionError
 
     import pharmpy.workflows.hashing as _hashing
+    from sim import linetrace
     _P['hashing_path'] = _hashing.__file__
+    _P['hashing_codes'] = linetrace.code_objects_of(_hashing)
     _P.update(pmodel=pmodel, ctxmod=ctxmod, dbmod=dbmod, Ctx=LocalDirectoryContext,
               ModelEntry=ModelEntry, ModelHash=ModelHash, Pending=PendingTransactionError)
     base = load_example_model('pheno')
@@ -335,7 +337,7 @@ def prepare():
                     'signature': f'{PROP}/results-not-verbatim-after-fault-free-store',
                     'detail': f'the results of {e["name"]} (log with {len(e["me"].modelfit_results.log)} '
                               f'entries) differ after one fault-free store_model_entry + retrieve'})
-    for e in POOL[:NPOOL]:
+    for e in POOL:
         _DS_HASH[e['idx']] = str(ModelHash(e['model']).dataset_hash)
     # what the real dummy runner produces for each entry (seeded by the model name)
     for e in POOL[:NPOOL]:
@@ -479,7 +481,7 @@ def config_for(i, tier='quick'):
         return {'mode': 'keyrace', 'memo': True, 'clock_jumps': False}
     memo = (i % 11) != 10
     jumps = (i % 3) == 1
-    if i % 40 == 30:
+    if i % 40 in (30, 10):
         c = {'mode': 'keyrace', 'memo': True, 'clock_jumps': False}
     elif i % 40 == 20:
         c = {'mode': 'scale', 'memo': memo, 'clock_jumps': False}
@@ -1615,17 +1617,19 @@ def run_keyrace(cfg, tape, want_trace=False):
     ModelHash = _P['ModelHash']
     h = hashlib.sha256()
     steps = switches = 0
-    rounds = 12
+    rounds = 60
     trace = []
     for rnd in range(rounds):
         policy = ('random', 'sticky', 'pct', 'pct')[tape.draw(4, 'policy')]
         k = Kernel(tape, policy=policy, max_steps=20000, pct_depth=1 + tape.draw(3, 'pct.depth'),
-                   pct_span=120, log_events=False, trace_files=(_P['hashing_path'],))
+                   pct_span=120, log_events=False)
         got = []
         plan = []
         for t in range(2 + tape.draw(2, 'nthr')):
             # alternate between entries of the two datasets (POOL[0]: dataset A, POOL[4]: B ...)
-            idxs = [tape.draw(NPOOL, 'key.model') for _ in range(2 + tape.draw(2, 'nkeys'))]
+            # (entries with small datasets: the hash loop over the rows is one yield per row)
+            small = [e_['idx'] for e_ in POOL if e_['dataset'] == 'A' or e_['dataset'].startswith('F')]
+            idxs = [small[tape.draw(len(small), 'key.model')] for _ in range(2 + tape.draw(2, 'nkeys'))]
             plan.append(idxs)
 
             def body(idxs=idxs, t=t):
@@ -1640,8 +1644,10 @@ def run_keyrace(cfg, tape, want_trace=False):
                         got.append((t, idx, 'model', str(ModelHash(obj))))
                     k.yield_point('between-keys')
             k.spawn(body, f't{t + 1}', pid=1)
+        from sim import linetrace
         try:
-            outcome = k.run()
+            with linetrace.LinePreemption(_P['hashing_codes'], lambda ln, k=k: k.yield_point('line', ln)):
+                outcome = k.run()
         finally:
             k.shutdown()
         steps += k.steps
